@@ -71,6 +71,12 @@ def subtree(run, profiles):
             nt = (entry, ph, rec.get("shape"))
             n[ph] = n.get(ph, 0) + 1
             if ph == "prefix":
+                if rec["exit"] == "return":
+                    # finished without entering the loop: allowed exactly when x is a leaf and the effect is detach(x) followed by remove(x)
+                    ok = rec.get("pre_first_child") is None and rec.get("freed") == [rec.get("x")] and rec.get("model_diff") == [] and not rec.get("J")
+                    run.ob("subtree-prefix", "remove_subtree/%s finishes a leaf without the loop: effect == detach(x); remove(x)" % prof, ok,
+                           key="remove_subtree|prefix is not detach(x) followed by the loop (%s)" % rec["exit"], detail=e2props.detail_of(rec), nontrivial=nt)
+                    continue
                 ok = rec["exit"] == "loophead" and rec.get("model_diff") == [] and not rec.get("J")
                 run.ob("subtree-prefix", "remove_subtree/%s prefix == detach(x), reaches the loop" % prof, ok,
                        key="remove_subtree|prefix is not detach(x) followed by the loop (%s)" % rec["exit"], detail=e2props.detail_of(rec), nontrivial=nt)
